@@ -268,6 +268,7 @@ structure BmcState where
   bootInvalid : Map Bool := {}            -- parameter selector ↦ marked invalid / locked
   bootMailbox : Map (List Nat) := {}      -- parameter 7: set selector ↦ block data
   lan : Map (List Nat) := {}              -- channel*256 + parameter ↦ data
+  lanRev : Map Nat := {}                  -- channel*256 + parameter ↦ parameter revision byte
   userNames : Map (List Nat) := {}        -- user id ↦ 16 bytes
   userPasswords : Map (List Nat) := {}    -- user id ↦ 16 bytes
   userEnabled : Map Nat := {}             -- user id ↦ enable status (1 enabled, 2 disabled)
@@ -315,6 +316,10 @@ def dfltLan (k : Nat) : List Nat :=
   | 6 => [255, 255, 255, 0]
   | 20 => [0, 0]
   | p => [(ch + p) % 256]
+/-- parameter revision (IPMI 23.2 response byte 2): [7:4] present revision, [3:0] oldest compatible one;
+11h for the parameters of the specification - the default varies with the address so that the revision of
+another channel / parameter is visible -/
+def dfltLanRev (k : Nat) : Nat := 16 * ((k / 256 + k % 256) % 15 + 1) + 1
 def dfltBoot (sel : Nat) : List Nat :=
   match sel with
   | 0 => [0]
@@ -416,6 +421,8 @@ def lanKey (ch param : Nat) : Nat := ch * 256 + param
 def get_lan_param (ch param : Nat) (s : BmcState) : List Nat := s.lan.getD (lanKey ch param) (dfltLan (lanKey ch param))
 def set_lan_param (ch param : Nat) (data : List Nat) (s : BmcState) : BmcState :=
   { s with lan := s.lan.set (lanKey ch param) data }
+/-- the parameter revision Get LAN Configuration Parameters reports for (channel, parameter) -/
+def get_lan_revision (ch param : Nat) (s : BmcState) : Nat := s.lanRev.getD (lanKey ch param) (dfltLanRev (lanKey ch param))
 /-- LAN parameter 20 (802.1q VLAN id): data1 = id[7:0], data2 [7] enable, [3:0] id[11:8] -/
 def get_vlan (ch : Nat) (s : BmcState) : Bool × Nat :=
   let d := get_lan_param ch 20 s
@@ -453,14 +460,19 @@ def set_user_access (a : UserAccessArgs) (s : BmcState) : BmcState :=
 
 def sensorKey (lun num : Nat) : Nat := lun * 256 + num
 def get_sensor (lun num : Nat) (s : BmcState) : Sensor := s.sensors.getD (sensorKey lun num) (dfltSensor (sensorKey lun num))
-/-- Get Sensor Reading as an API result: reading (absent while unavailable), raw state bytes -/
+/-- Get Sensor Reading as an API result: reading and raw state bytes.  While the BMC flags
+"reading/state unavailable" (response byte 3 bit 5, IPMI 35.14: "software should use this bit to avoid
+getting an incorrect status while the first sensor update is in progress") NEITHER the reading NOR the
+state bytes of the response describe the sensor: the result carries neither. -/
 def get_sensor_reading (lun num : Nat) (s : BmcState) : Option Nat × Option Nat :=
   let x := get_sensor lun num s
-  (if x.unavailable then none else some x.reading,
-   match x.states1, x.states2 with
-   | some a, some b => some (a + 256 * b)
-   | some a, none => some a
-   | none, _ => none)
+  if x.unavailable then (none, none)
+  else
+    (some x.reading,
+     match x.states1, x.states2 with
+     | some a, some b => some (a + 256 * b)
+     | some a, none => some a
+     | none, _ => none)
 def thrNames : List String := ["lnc", "lcr", "lnr", "unc", "ucr", "unr"]
 /-- readable thresholds as (index into lnc lcr lnr unc ucr unr, value) -/
 def get_sensor_thresholds (lun num : Nat) (s : BmcState) : List (Nat × Nat) :=
@@ -474,9 +486,12 @@ def set_sensor_thresholds (lun num : Nat) (vals : List (Option Nat)) (s : BmcSta
     | some v => v
     | none => x.thresholds.getD i 0
   { s with sensors := s.sensors.set (sensorKey lun num) { x with thresholds := thr } }
+/-- Re-arm Sensor Events (IPMI 35.12): the sensor is scanned anew; until that update has completed the
+sensor answers "reading/state unavailable" (35.14) - the reading and state bytes it still holds are the
+ones from before the re-arm -/
 def rearm_sensor (lun num : Nat) (s : BmcState) : BmcState :=
   let x := get_sensor lun num s
-  { s with sensors := s.sensors.set (sensorKey lun num) { x with rearmCount := x.rearmCount + 1 } }
+  { s with sensors := s.sensors.set (sensorKey lun num) { x with rearmCount := x.rearmCount + 1, unavailable := true } }
 
 def get_event_receiver (s : BmcState) : Nat × Nat := (s.evReceiverAddr, s.evReceiverLun)
 def set_event_receiver (addr lun : Nat) (s : BmcState) : BmcState :=
@@ -779,7 +794,9 @@ def handleTransport (s : BmcState) (r : Req) : BmcState × List Nat :=
   match r.cmd, r.data with
   | 0x01, c :: p :: data => reply (set_lan_param (bitsOf c 0 4) p data s) []
   | 0x02, [c, p, _setSel, _blk] =>
-    if bitOf c 7 then reply s [0x11] else reply s (0x11 :: get_lan_param (bitsOf c 0 4) p s)
+    -- byte 1 [7] "get parameter revision only": the revision of the ADDRESSED (channel, parameter), no data
+    if bitOf c 7 then reply s [get_lan_revision (bitsOf c 0 4) p s]
+    else reply s (get_lan_revision (bitsOf c 0 4) p s :: get_lan_param (bitsOf c 0 4) p s)
   | 0x01, _ => fail s ccLength
   | 0x02, _ => fail s ccLength
   | _, _ => fail s ccInvalidCmd
@@ -869,6 +886,7 @@ inductive Result where
   | pmGlobal (g : Nat)
   | hpmStatus (cmd cc : Nat)
   | hpmCaps (ver comps : Nat)
+  | rollback (status : Nat) (estimate : Option Nat)
   | error (cc : Nat)
   deriving Repr, DecidableEq
 
@@ -937,7 +955,9 @@ def run (c : Call) (s : BmcState) : BmcState × Result :=
   | .getBootDevice => (s, .bootDev (BootDev.ofCode (get_boot_flags s).device))
   | .setBootOptions dev efi pers =>
     (set_boot_flags { valid := true, persistent := pers, efi := efi, device := dev.code } s, .unit)
-  | .getLanParam ch sel _ _ rev => (s, .bytes (if rev then [] else get_lan_param ch sel s))
+  | .getLanParam ch sel _ _ rev =>
+    -- revision-only mode returns the parameter revision of the addressed channel / parameter
+    (s, if rev then .nat (get_lan_revision ch sel s) else .bytes (get_lan_param ch sel s))
   | .setLanParam ch sel data => (set_lan_param ch sel data s, .unit)
   | .getIp ch => (s, .ip (get_lan_param ch 3 s))
   | .setIp ip ch => (set_lan_param ch 3 ip s, .unit)
@@ -1001,8 +1021,9 @@ def run (c : Call) (s : BmcState) : BmcState × Result :=
   | .getTargetUpgradeCapabilities => (s, .hpmCaps s.hpm.version s.hpm.components)
   | .querySelftestResults => (s, .natPair s.hpm.selftest1 s.hpm.selftest2)
   | .queryRollbackStatus =>
-    -- the API exposes only the completion estimate, and only when it is not zero
-    (s, .optNatPair none (match s.hpm.rollbackEstimate with | some 0 => none | e => e))
+    -- HPM.1 Query Rollback Status: the mask of the rolled-back components and, while it is present, the
+    -- completion estimate (0 % is an estimate too)
+    (s, .rollback s.hpm.rollbackStatus s.hpm.rollbackEstimate)
 
 /-- a read leaves the BMC untouched -/
 def Call.isRead : Call → Bool
